@@ -34,3 +34,25 @@ package registry
 //@   ensures !result && ghost_pulled == 1 && ghost_nil == 1 ==> err == nil
 //@   ensures !result && ghost_pulled == 0 ==> err == arg1 && arg1 != nil
 //@   ensures !result && err == nil ==> ghost_pulled == 1 && ghost_nil == 1
+
+// ---- handlePull: what the HTTP handler reports. "success" is written (and nil returned) only
+// ---- after Registry.Pull returned nil (non-streaming path) resp. after the pull goroutine handed
+// ---- a nil error over the channel `done` (streaming path; the goroutine's result is the subject
+// ---- of handlePull$4$2 above). An error from Pull / from the goroutine is never turned into nil.
+// Encode calls in the engine's (block) order: #1 "pulling manifest" (server.go:344)  #2 "verifying
+// sha256 digest" (364)  #3 "writing manifest" (365)  #4 "success", streaming (366)  #5 "success",
+// non-streaming (272); checked against the reported source lines.
+//@ func (*Local).handlePull
+//@   ghost-at entry : ghost_pullok := 0
+//@   ghost-at entry : ghost_streamok := 0
+//@   ghost-at after call Pull #1 : ghost_pullok := ite(result == nil, 1, 0)
+//@   assert-at call Encode #5 : ghost_pullok == 1
+//@   assert-at call Encode #2 : err == nil          -- err: the value received from `done`
+//@   assert-at call Encode #4 : err == nil
+//@   ghost-at call Encode #4 : ghost_streamok := 1
+//@   ensures result == nil ==> ghost_pullok == 1 || ghost_streamok == 1
+
+// handlePull$4$1: the deferred hand-over of the goroutine's result: what is sent on `done` is the
+// named result err that the loop body (handlePull$4$2) assigned.
+//@ func (*Local).handlePull$4$1
+//@   assert-at send t0 #1 : sent == err       -- (the channel is a captured local: the engine names the site after the SSA register that holds `*done`, t0)
